@@ -346,7 +346,7 @@ Hypothesis Hsel : find_visible cis cl (p_changeset par) (pstamp cis par) (o_thre
 
 Lemma time_travel_generic : forall is_rel t par' us refs' pend,
   before_bound cis o (nth_error ps (S p)) t ->
-  (forall ck, In ck cl -> (c_vidx s < c_vidx ck)%nat -> stamp cis ck <= t -> c_visible ck = true) ->
+  (forall e, current_at cis cl t = Some e -> (c_vidx s < c_vidx e)%nat -> c_visible e = true) ->
   nth_error ps' p = Some par' -> nth_error results p = Some us ->
   apply_updates_up_to is_rel t (p_refs par') us = ApplyOk refs' pend ->
   exists e r', later (Some s) (current_at cis cl t) = Some e /\ nth_error refs' j = Some r' /\ ref_carries r' e.
@@ -404,7 +404,7 @@ Proof.
         unfold before_bound in *. destruct (nth_error ps (S p)); [lia|exact I]. }
       assert (In ue us /\ u_index ue = j) as [Hue _].
       { apply (proj2 (Hmem ue)). exists e, m. split; [exact He|].
-        split; [apply Hbetween; [eapply nth_error_In; exact He|lia|exact Hpe]|].
+        split; [apply (Hbetween e); [rewrite (current_at_pos cis t cl Hm), Epre; exact He|lia]|].
         split; [lia|]. split; [exact Hmnv|reflexivity]. }
       assert (applicable t j ue = true) as Haue.
       { unfold applicable. apply andb_true_iff. split; [|apply Nat.eqb_refl].
